@@ -289,3 +289,7 @@ PROPS["C15"]["rule"] += "; Many: one amino acid with 255..258, 511..513, 65535..
 # round 7
 PROPS["C16"]["rule"] += "; every positive and negative family also in Rust's other spellings of the same string value (raw strings r\"..\" and r##\"..\"##, \\x.. and \\u{..} escapes, mixtures)"
 PROPS["C17"]["rule"] += "; kmer_laws: the derived codecs of the laws set through text -> k-mer -> text, try_from(&slice), == &str, Seq::from(kmer), u64/u128 storages and kmers::<K>() for K in {1,2,3,fit-1,fit}; G9: codecs without a zero code (2, 3, 8 bits)"
+
+# round 8
+PROPS["C01"]["rule"] += "; Utf8Mix: an ASCII rejected byte and a multi-byte UTF-8 character (or two different ones) at every position pair, both orders, text entry points against the byte entry point"
+PROPS["C02"]["rule"] += "; variants flipping the same bit pattern in several machine words at once (every symbol; one symbol per word in all/two/three/alternate words); containers use a fixed-key hasher state"
